@@ -19,7 +19,10 @@ import (
 )
 
 // reply kinds of the streamed commands
-var c29kinds = []string{"empty", "short", "crlf", "long", "int", "float", "nil", "err"}
+var c29kinds = []string{"empty", "short", "crlf", "long", "int", "float", "nil", "err", "chunked"}
+
+// a RESP3 streamed (chunked) string reply
+const c29chunkedWire = "$?\r\n;4\r\nabcd\r\n;3\r\nefg\r\n;0\r\n"
 
 func c29payload(kind string) (cmd []string, payload string, isErr bool) {
 	switch kind {
@@ -39,6 +42,8 @@ func c29payload(kind string) (cmd []string, payload string, isErr bool) {
 		return []string{"GET", "k:none"}, "", true
 	case "err":
 		return []string{"GET", "k:list"}, "", true
+	case "chunked":
+		return []string{"VCHUNK"}, "abcdefg", false
 	}
 	panic(kind)
 }
@@ -55,6 +60,8 @@ func c29encLen(kind string) int {
 		return len("_\r\n")
 	case "err":
 		return len("-WRONGTYPE Operation against a key holding the wrong kind of value\r\n")
+	case "chunked":
+		return len(c29chunkedWire)
 	}
 	return len(fmt.Sprintf("$%d\r\n", len(p))) + len(p) + 2
 }
@@ -97,6 +104,7 @@ func c29body(c c29cfg) func(x *vsched.Exec) {
 			srv.Do("SET", "k:long", strings.Repeat("0123456789", 4)+"xyz")
 			srv.Do("RPUSH", "k:list", "x")
 			srv.Extra["VFLOAT"] = func(*simredis.Ctx) simredis.Reply { return simredis.Double("1.5") }
+			srv.Extra["VCHUNK"] = func(*simredis.Ctx) simredis.Reply { return simredis.Reply{T: '$', Raw: c29chunkedWire} }
 			n.ReadChunk = c.chunk
 		})
 		if e.err != nil {
@@ -268,7 +276,7 @@ func c29body(c c29cfg) func(x *vsched.Exec) {
 
 func TestVerif_C29(t *testing.T) {
 	vrun.Main(t, "C29", func(r *vrun.Run) {
-		r.Rule = "DoStream for every reply kind {empty, short, CRLF-containing, 43-byte string, integer, float, nil, error} and DoMultiStream for every pair (thorough: triple) of kinds x fault {none, writer fails at every byte offset, connection cut at every byte offset of the reply stream, context already done} x network read sizes {1 byte, unlimited}; one deterministic execution each plus a follow-up stream on the same pool; oracle: bytes written = payload, nil/error replies are errors, one WriteTo per command then io.EOF, connection back in the pool exactly once and clean"
+		r.Rule = "DoStream for every reply kind {empty, short, CRLF-containing, 43-byte string, RESP3 streamed (chunked) string, integer, float, nil, error} and DoMultiStream for every pair (thorough: triple) of kinds x fault {none, writer fails at every byte offset, connection cut at every byte offset of the reply stream, context already done} x network read sizes {1 byte, unlimited}; one deterministic execution each plus a follow-up stream on the same pool; oracle: bytes written = payload, nil/error replies are errors, one WriteTo per command then io.EOF, connection back in the pool exactly once and clean"
 		var cfgs []c29cfg
 		seqs := [][]string{}
 		for _, a := range c29kinds {
